@@ -192,6 +192,9 @@ def max(*args):
     elif len(args) == 1 and type(args[0]) is cvxopt.base.spmatrix:
         if len(args[0]) == mul(args[0].size):
             return omax(args[0])
+        elif len(args[0]) == 0:
+            # no stored entries: all elements are zero
+            return 0.0
         else:
             return omax(omax(args[0]), 0.0)
     else:
@@ -221,6 +224,9 @@ def min(*args):
     elif len(args) == 1 and type(args[0]) is cvxopt.base.spmatrix:
         if len(args[0]) == mul(args[0].size):
             return omin(args[0])
+        elif len(args[0]) == 0:
+            # no stored entries: all elements are zero
+            return 0.0
         else:
             return omin(omin(args[0]), 0.0)
     else:
